@@ -8,6 +8,7 @@
 package main
 
 import (
+	"bytes"
 	"fmt"
 	"math/rand"
 	"os"
@@ -27,7 +28,7 @@ import (
 
 func main() {
 	vf.Main("C27", "exploration",
-		"states = generated history checked out by git (optionally with racily-clean index entries) x rounds of mutations: worktree edits (size-changing, same-size, racy same-size+same-mtime), deletions, chmod, file<->dir, file<->symlink, untracked files/dirs, empty dirs, nested .gitignore + info/exclude (safe pattern subset) with matching tracked and untracked files, index changes by git (update-index --add/--remove, rm --cached, add -N, update-index --chmod) and by go-git (Add, Remove, Move) x config core.fileMode {true,false}; every path of every state is one comparison; non-trivial = state has at least 2 distinct XY codes; shape = sorted set of XY codes present + config + mutation kinds; oracle = real git status on the same directory",
+		"states = generated history checked out by git (optionally with racily-clean index entries) x rounds of mutations: worktree edits (size-changing, same-size, racy same-size+same-mtime), deletions, chmod, file<->dir, file<->symlink, untracked files/dirs, empty dirs, nested .gitignore + info/exclude (safe pattern subset) with matching tracked and untracked files, index changes by git (update-index --add/--remove, rm --cached, add -N, update-index --chmod) and by go-git (Add, Remove, Move) x config core.fileMode {true,false}, core.autocrlf {unset,true,input} over histories with CRLF blobs; every path of every state is one comparison; non-trivial = state has at least 2 distinct XY codes; shape = sorted set of XY codes present + config + mutation kinds; oracle = real git status on the same directory",
 		run)
 }
 
@@ -36,6 +37,7 @@ type stateRec struct {
 	Case     int      `json:"case"`
 	Round    int      `json:"round"`
 	FileMode bool     `json:"core_filemode"`
+	AutoCRLF string   `json:"core_autocrlf,omitempty"`
 	Racy     bool     `json:"racy_base"`
 	Wrapped  bool     `json:"wrapped"`
 	Log      []string `json:"mutations"`
@@ -417,6 +419,23 @@ func run(c *vf.Ctx) {
 		r := c.Rand("hist", hi)
 		h := gen.RandomHistory(r, gen.HistOpts{N: 3 + r.Intn(4), MergeProb: 0.1, Files: 8 + r.Intn(14), Branches: 2,
 			Path: gen.PathOpts{Depth: 2 + r.Intn(2), Symlinks: true, Exec: true}})
+		// a third of the histories carry blobs with CRLF line endings and are observed under core.autocrlf
+		crlfHist := hi%3 == 1
+		if crlfHist {
+			for ci := range h.Commits {
+				t := h.Commits[ci].Tree
+				for p, f := range t {
+					sum := 0
+					for i := 0; i < len(p); i++ {
+						sum += int(p[i])
+					}
+					if (f.Mode == "100644" || f.Mode == "100755") && sum%3 == 0 {
+						f.Content = bytes.ReplaceAll(f.Content, []byte("\n"), []byte("\r\n"))
+						t[p] = f
+					}
+				}
+			}
+		}
 		root := c.TempDir(fmt.Sprintf("h%d", hi))
 		defer os.RemoveAll(root)
 		base, err := twin.NewBase(g, filepath.Join(root, "base"), h)
@@ -448,6 +467,16 @@ func run(c *vf.Ctx) {
 					cf.Close()
 				}
 			}
+			autocrlf := ""
+			if crlfHist {
+				autocrlf = []string{"", "true", "input"}[cr.Intn(3)]
+				if autocrlf != "" {
+					if cf, err := os.OpenFile(filepath.Join(D, ".git", "config"), os.O_APPEND|os.O_WRONLY, 0o644); err == nil {
+						cf.WriteString("[core]\n\tautocrlf = " + autocrlf + "\n")
+						cf.Close()
+					}
+				}
+			}
 			m := &mutator{r: cr, g: g, dir: D, tree: headTree, feat: map[string]string{}}
 			wrapped := ci%3 == 2
 			reported := map[string]bool{} // finding keys already reported for this case (later rounds repeat them)
@@ -466,7 +495,7 @@ func run(c *vf.Ctx) {
 				if cr.Intn(3) == 0 {
 					m.worktreeRound(1 + cr.Intn(3)) // changes on top of what was just staged
 				}
-				rec := stateRec{Hist: hi, Case: ci, Round: round, FileMode: fileMode, Racy: racy, Wrapped: wrapped, Log: append([]string{}, m.log...)}
+				rec := stateRec{Hist: hi, Case: ci, Round: round, FileMode: fileMode, AutoCRLF: autocrlf, Racy: racy, Wrapped: wrapped, Log: append([]string{}, m.log...)}
 
 				// ---- go-git first (it must not depend on git having refreshed anything), then git on the same directory
 				hd, err := twin.Open(D, wrapped)
@@ -534,7 +563,10 @@ func run(c *vf.Ctx) {
 					kl = append(kl, k)
 				}
 				sort.Strings(kl)
-				c.Eval(fmt.Sprintf("codes=%s|filemode=%v|racy=%v|wrapped=%v|%s", strings.Join(cl, ","), fileMode, racy, wrapped, strings.Join(kl, ",")), len(codes) >= 2)
+				c.Eval(fmt.Sprintf("codes=%s|filemode=%v|autocrlf=%s|racy=%v|wrapped=%v|%s", strings.Join(cl, ","), fileMode, autocrlf, racy, wrapped, strings.Join(kl, ",")), len(codes) >= 2)
+				if autocrlf != "" {
+					c.Count("states_under_autocrlf", 1)
+				}
 				c.Count("states_compared", 1)
 				if len(diffs) == 0 {
 					if hi < 2 && ci == 0 {
@@ -584,6 +616,9 @@ func run(c *vf.Ctx) {
 						key = "status:ignored-by-" + ignoredBy[d.path] + ":reported-untracked"
 					case !fileMode && len(d.git) == 2 && len(d.gogit) == 2 && norm(d.git)[0] == d.gogit[0] && d.git[1] == ' ' && d.gogit[1] == 'M':
 						key = "status:filemode-false:exec-bit-difference-reported-modified"
+					case autocrlf != "" && len(d.git) == 2 && len(d.gogit) == 2 && d.git[1] == ' ' && d.gogit[1] == 'M' && norm(d.git)[0] == d.gogit[0] &&
+						bytes.Contains(headTree[d.path].Content, []byte("\r\n")) && (fileMode || !strings.Contains(feat, "chmod")) && !m.contentTouched(d.path):
+						key = "status:autocrlf:unchanged-file-whose-blob-has-crlf-reported-modified"
 					case d.git == "D?" && d.gogit == "??":
 						key = "status:staged-deletion-still-on-disk:staging-D-reported-untracked"
 					case strings.HasPrefix(feat, "gogit-move-to") && d.git[0] == d.gogit[0] && norm(d.git)[1] == 'M' && d.gogit[1] == ' ':
@@ -624,10 +659,25 @@ func run(c *vf.Ctx) {
 	c.Assume("a path staged as deleted that still exists on disk gets two git records (D and ??): folded to staging D, worktree ?")
 	c.Assume("once a racily-clean entry has been edited keeping size and mtime, real git no longer rewrites the index of that copy (in a copy every entry is stat-dirty for git, so it would skip the smudging it performs in a real repository); go-git operations still do")
 	c.Assume("go-git Add of a path that forms a file/directory conflict with a tracked path is not used for state building (the index it produces is C28's subject)")
-	c.Assume("ignore patterns come from a safe subset (no ** adjacent to a non-slash: git < 2.52 bug); gitlinks/submodules, unmerged entries and core.autocrlf are outside this check's generator (autocrlf: C31)")
+	c.Assume("ignore patterns come from a safe subset (no ** adjacent to a non-slash: git < 2.52 bug); gitlinks/submodules and unmerged entries are outside this check's generator; core.autocrlf {true,input} is applied to a third of the histories, whose blobs partly have CRLF endings (conversion itself: C31)")
 }
 
 type failure struct{ path, git, gogit string }
+
+// contentTouched: some mutation changed the bytes or type of the path in the worktree or staged it anew.
+func (m *mutator) contentTouched(p string) bool {
+	for _, l := range m.log {
+		k := strings.SplitN(l, ":", 2)
+		if len(k) == 2 && k[1] == p {
+			switch k[0] {
+			case "touch", "tracked-but-ignored", "chmod", "git-index-chmod":
+			default:
+				return true
+			}
+		}
+	}
+	return false
+}
 
 func (m *mutator) logged(entry string) bool {
 	for _, l := range m.log {
